@@ -1379,6 +1379,27 @@ func c05c(c *Ctx, r *Report) {
 	}
 	// (4) check pre-filled with -1 over its whole length
 	prefill := false
+	// form `for i := range check { check[i] = -1 }` / `for i := 0; i < len(check); i++ { … }`
+	ast.Inspect(f.Decl.Body, func(n ast.Node) bool {
+		st, ok := n.(ast.Stmt)
+		if !ok {
+			return true
+		}
+		full, body, idx := fullRangeLoop(info, st)
+		if full == nil || identObj(info, full) != roles["CHK"] || len(body.List) != 1 || !noSkips(body) {
+			return true
+		}
+		if as, ok := body.List[0].(*ast.AssignStmt); ok && len(as.Lhs) == 1 && len(as.Rhs) == 1 {
+			if ix, ok := as.Lhs[0].(*ast.IndexExpr); ok && identObj(info, ix.X) == roles["CHK"] && identObj(info, ix.Index) == idx {
+				if cv := constOf(info, as.Rhs[0]); cv != nil {
+					if v, exact := constant.Int64Val(constant.ToInt(cv)); exact && v < 0 {
+						prefill = true
+					}
+				}
+			}
+		}
+		return true
+	})
 	ast.Inspect(f.Decl.Body, func(n ast.Node) bool {
 		fs, ok := n.(*ast.ForStmt)
 		if !ok || len(fs.Body.List) != 1 {
@@ -1393,7 +1414,7 @@ func c05c(c *Ctx, r *Report) {
 			return true
 		}
 		v, isC := constInt(info, as.Rhs[0])
-		if !isC || v != -1 {
+		if !isC || v >= 0 {
 			return true
 		}
 		// bound equals the make length of CHK
@@ -1462,45 +1483,37 @@ func c05c(c *Ctx, r *Report) {
 				bad = "default of row i is not computed from row i of the same table"
 				return true
 			}
-			okBlank := false
-			ast.Inspect(outer.Body, func(m ast.Node) bool {
-				is, ok := m.(*ast.IfStmt)
-				if !ok {
-					return true
-				}
-				be, ok := unparen(is.Cond).(*ast.BinaryExpr)
-				if !ok || be.Op != token.EQL {
-					return true
-				}
-				cell, dflt := be.X, be.Y
-				if _, isIdx2 := unparen(cell).(*ast.IndexExpr); !isIdx2 {
-					cell, dflt = dflt, cell
-				}
-				cix, ok1 := unparen(cell).(*ast.IndexExpr)
-				dix, ok2 := unparen(dflt).(*ast.IndexExpr)
-				if !ok1 || !ok2 {
-					return true
-				}
-				crow, ok3 := unparen(cix.X).(*ast.IndexExpr)
-				if !ok3 {
-					cix, dix = dix, cix
-					crow, ok3 = unparen(cix.X).(*ast.IndexExpr)
-					if !ok3 {
+			// the blanking: inline in the loop, or in a helper called with (row i of the table, default i)
+			isRow := func(info *types.Info, e ast.Expr) bool {
+				ix, ok := unparen(e).(*ast.IndexExpr)
+				return ok && identObj(info, ix.X) == tabObj && identObj(info, ix.Index) == iObj
+			}
+			isDef := func(info *types.Info, e ast.Expr) bool {
+				ix, ok := unparen(e).(*ast.IndexExpr)
+				return ok && identObj(info, ix.X) == defObj && identObj(info, ix.Index) == iObj
+			}
+			okBlank := blanksExactlyDefault(ginfo, outer.Body, func(e ast.Expr) bool { return isRow(ginfo, e) }, func(e ast.Expr) bool { return isDef(ginfo, e) })
+			if !okBlank {
+				ast.Inspect(outer.Body, func(m ast.Node) bool {
+					call, ok := m.(*ast.CallExpr)
+					if !ok || len(call.Args) != 2 || !isRow(ginfo, call.Args[0]) || !isDef(ginfo, call.Args[1]) {
 						return true
 					}
-				}
-				if identObj(ginfo, crow.X) == tabObj && identObj(ginfo, crow.Index) == iObj && identObj(ginfo, dix.X) == defObj && identObj(ginfo, dix.Index) == iObj {
-					// body blanks the same cell with 0
-					for _, s := range is.Body.List {
-						if as, ok := s.(*ast.AssignStmt); ok && len(as.Lhs) == 1 && exprString(as.Lhs[0]) == exprString(cix) {
-							if v, ok := constInt(ginfo, as.Rhs[0]); ok && v == 0 {
-								okBlank = true
-							}
-						}
+					ref := c.FuncOf(callee(ginfo, call))
+					if ref == nil {
+						return true
 					}
-				}
-				return true
-			})
+					hp := paramObjs(ref.Pkg.TypesInfo, ref.Decl)
+					if len(hp) != 2 {
+						return true
+					}
+					hinfo := ref.Pkg.TypesInfo
+					if blanksExactlyDefault(hinfo, ref.Decl.Body, func(e ast.Expr) bool { return identObj(hinfo, e) == hp[0] }, func(e ast.Expr) bool { return identObj(hinfo, e) == hp[1] }) {
+						okBlank = true
+					}
+					return true
+				})
+			}
 			if !okBlank {
 				bad = fmt.Sprintf("cells of %s[i] are not blanked exactly when they equal %s[i]", tabObj.Name(), defObj.Name())
 			}
@@ -1510,6 +1523,52 @@ func c05c(c *Ctx, r *Report) {
 			fmt.Sprintf("%d default vectors: row i's default is the most frequent value of row i and exactly the cells equal to it are blanked", n),
 			fmt.Sprintf("default/blanking pairing broken (default vectors found: %d): %s", n, bad))
 	}
+}
+
+// blanksExactlyDefault: within body, the cells ROW[j] of a full loop over ROW are set to 0 exactly under
+// `ROW[j] == DEF` (either operand order) and no other statement stores into ROW.
+func blanksExactlyDefault(info *types.Info, body *ast.BlockStmt, isRow, isDef func(e ast.Expr) bool) bool {
+	found := false
+	otherStore := false
+	cellOf := func(e ast.Expr, j types.Object) bool {
+		ix, ok := unparen(e).(*ast.IndexExpr)
+		return ok && isRow(ix.X) && identObj(info, ix.Index) == j && j != nil
+	}
+	ast.Inspect(body, func(n ast.Node) bool {
+		st, ok := n.(ast.Stmt)
+		if !ok {
+			return true
+		}
+		full, lb, jv := fullRangeLoop(info, st)
+		if full == nil || !isRow(full) {
+			return true
+		}
+		for _, s := range lb.List {
+			is, ok := s.(*ast.IfStmt)
+			if !ok || is.Else != nil || is.Init != nil || len(is.Body.List) != 1 {
+				otherStore = true
+				continue
+			}
+			be, ok := unparen(is.Cond).(*ast.BinaryExpr)
+			if !ok || be.Op != token.EQL {
+				otherStore = true
+				continue
+			}
+			okCond := (cellOf(be.X, jv) && isDef(be.Y)) || (cellOf(be.Y, jv) && isDef(be.X))
+			as, ok := is.Body.List[0].(*ast.AssignStmt)
+			if !okCond || !ok || len(as.Lhs) != 1 || len(as.Rhs) != 1 || !cellOf(as.Lhs[0], jv) {
+				otherStore = true
+				continue
+			}
+			if v, isC := constInt(info, as.Rhs[0]); isC && v == 0 {
+				found = true
+			} else {
+				otherStore = true
+			}
+		}
+		return false
+	})
+	return found && !otherStore
 }
 
 func condMentions(conds []Cond, s string) bool {
